@@ -20,7 +20,12 @@ CONSTANTS Formats,     \* subset of DOMAIN Cap
           NSet,        \* bead counts
           MaxFrames,   \* frames written per file session
           Pids,        \* payload ids (0 small, 1 field-width extremes, 2..50 scrambled,
-                       \* 99 "large frame": cheap function of the bead index, neighbours differ)
+                       \* 99 "large frame": cheap function of the bead index, neighbours differ,
+                       \* 98 "tiny": +-1, 10, ... 10^4 quanta DIVIDED BY 3 (field `div` of the frame):
+                       \*    magnitudes far below one unit of the field with a full mantissa, both
+                       \*    signs, in every column; such values are not on the text lattice and
+                       \*    come back "within the printed precision" (half a unit of the last
+                       \*    printed digit; dlpoly: 12 significant digits))
           MaxFiles,    \* file sessions per behaviour
           ExtraNext,   \* RNext calls after the end of the file
           HVSet, HFSet, \* topology flags explored (subsets of BOOLEAN)
@@ -131,6 +136,10 @@ Pick(lo, hi, p, i, c, kind, s) ==
                      IN CASE sel = 0 -> hi   [] sel = 1 -> lo     [] sel = 2 -> 0
                           [] sel = 3 -> 1    [] sel = 4 -> -1     [] sel = 5 -> hi - 1
                           [] OTHER -> lo + 1
+  ELSE IF p = 98 THEN Clamp(lo, hi, (IF (i + 2 * c + s) % 2 = 0 THEN 1 ELSE -1) *
+                                     (CASE (i + c + kind + s) % 5 = 0 -> 1 [] (i + c + kind + s) % 5 = 1 -> 10
+                                        [] (i + c + kind + s) % 5 = 2 -> 100 [] (i + c + kind + s) % 5 = 3 -> 1000
+                                        [] OTHER -> 10000))
   ELSE IF p = 99 THEN Clamp(lo, hi, ((i * 7 + c * 3331 + kind * 977 + s) % 19999) - 9999)
   ELSE lo + ((Hash(p, i, c, kind, s) * 9973 + i * 31 + c * 17) % (hi - lo + 1))
 
@@ -145,6 +154,8 @@ BoxK(f, bc, p, r, c) ==
   ELSE IF r = c THEN (IF p = 1 THEN Cap[f].bmax - (r - 1)
                       ELSE 300000 + 12345 * ((p % 50) + 1) + 1111 * r)
   ELSE IF bc = "ortho" THEN 0
+  ELSE IF p = 98 THEN (IF (r + c) % 2 = 0 THEN 1 ELSE -1) *
+                      (CASE (r + 2 * c) % 4 = 0 -> 1 [] (r + 2 * c) % 4 = 1 -> 10 [] (r + 2 * c) % 4 = 2 -> 100 [] OTHER -> 1000)
   ELSE IF p = 1 /\ r = 1 /\ c = 2 THEN Cap[f].omin
   ELSE (IF (r + c + p) % 2 = 0 THEN 1 ELSE -1) * ((3 * (r - 1) + c) * 4321 + (p % 50))
 
@@ -156,6 +167,7 @@ StepOf(fr, k, nf) == 1000 * nf + 10 * k + (fr.pid % 10) + 1
 Given(f, fr, k, nf) ==
   [step |-> StepOf(fr, k, nf), time |-> 2 * StepOf(fr, k, nf),   \* time in 10^-3 ps
    bc |-> fr.bc, pid |-> fr.pid,
+   div |-> IF fr.pid = 98 THEN 3 ELSE 1,       \* every number of the frame is K * 10^-e / div
    box |-> [r \in 1..3 |-> [c \in 1..3 |-> BoxK(f, fr.bc, fr.pid, r, c)]],
    pos |-> [i \in 1..nb |-> [c \in 1..3 |-> PosK(f, fr.pid, i, c, k + 5 * nf)]],
    vel |-> IF hv THEN [i \in 1..nb |-> [c \in 1..3 |-> VelK(f, fr.pid, i, c, k + 5 * nf)]] ELSE <<>>,
@@ -169,6 +181,7 @@ Stored(f, g) ==
   [n |-> nb,
    step |-> IF Cap[f].step THEN g.step ELSE -1,
    time |-> IF Cap[f].time THEN g.time ELSE -1,
+   div |-> g.div,           \* > 1: compare within the printed precision, see Units(f).sig
    boxmode |-> Cap[f].box,
    box |-> IF Cap[f].box = "none" THEN <<>> ELSE g.box,
    pos |-> g.pos,
@@ -185,7 +198,12 @@ TopStored(f, g) ==
    typepart |-> IF Cap[f].types = "partition" THEN [i \in 1..nb |-> TypeIdx(i)] ELSE <<>>,
    frame |-> Stored(f, g)]
 
-Units(f) == [epos |-> Cap[f].epos, evel |-> Cap[f].evel, ef |-> Cap[f].ef, ebox |-> Cap[f].ebox]
+\* sig: significant digits printed by formats without a fixed number of decimals (dlpoly: 12); 0 = fixed
+\* decimals, the printed quantum is 10^-e
+Units(f) == [epos |-> Cap[f].epos, evel |-> Cap[f].evel, ef |-> Cap[f].ef, ebox |-> Cap[f].ebox,
+             sig |-> IF f \in {"dlph", "dlpc"} THEN 12 ELSE 0,
+             \* the CONFIG cell is printed with 10 fixed decimals (Angstrom) = quantum 10^-11 nm
+             ebfix |-> IF f = "dlpc" THEN 11 ELSE 0]
 
 \* ---------------------------------------------------------------------------
 Init ==
@@ -223,14 +241,29 @@ WClose ==
 
 \* reader session with a topology of nb + delta beads
 \* reuse: the reader object of an earlier session (closed, possibly after a reported error)
-HadReader == \E k \in 1..Len(h) : h[k].a = "rclose"
-ROpen(delta, reuse) ==
+\* Which closed reader objects exist: r = the object of the last closed trajectory session,
+\* t = the object that served the last ReadTopology.  GROReader, PDBReader, XYZReader and
+\* LAMMPSDumpReader implement BOTH interfaces, so either object can serve either purpose
+\* (src = "reader" / "top"); an object moves to where it was used last.
+RECURSIVE ObjState(_)
+ObjState(hh) ==
+  IF hh = <<>> THEN [r |-> FALSE, t |-> FALSE]
+  ELSE LET st == ObjState(SubSeq(hh, 1, Len(hh) - 1))  e == hh[Len(hh)] IN
+       IF e.a = "ropen" THEN (IF e.src = "reader" THEN [st EXCEPT !.r = FALSE]
+                              ELSE IF e.src = "top" THEN [st EXCEPT !.t = FALSE] ELSE st)
+       ELSE IF e.a = "rclose" THEN [st EXCEPT !.r = TRUE]
+       ELSE IF e.a = "readtop" THEN (IF e.src = "reader" THEN [r |-> FALSE, t |-> TRUE] ELSE [st EXCEPT !.t = TRUE])
+       ELSE st
+Avail == (IF ObjState(h).r THEN {"reader"} ELSE {}) \cup (IF ObjState(h).t /\ Cap[fmt].top THEN {"top"} ELSE {})
+SrcOk(src) == /\ src \in {"new"} \cup Avail
+              /\ (Avail = {} \/ (src # "new") \in ReuseSet)
+ROpen(delta, src) ==
   /\ phase = "written" /\ nb + delta >= 1
   /\ delta # 0 => nb >= 1      \* an empty frame against a non-empty topology is not specified
-  /\ reuse = (HadReader /\ reuse) /\ (HadReader => reuse \in ReuseSet)
+  /\ SrcOk(src)
   /\ phase' = "reading" /\ rn' = nb + delta
   /\ started' = FALSE /\ failed' = FALSE /\ rpos' = 0 /\ extra' = 0
-  /\ h' = Append(h, [a |-> "ropen", rn |-> nb + delta, reuse |-> reuse])
+  /\ h' = Append(h, [a |-> "ropen", rn |-> nb + delta, reuse |-> (src # "new"), src |-> src])
   /\ UNCHANGED <<fmt, nb, hv, hf, base, cur, file, nfiles>>
 
 RFirst ==
@@ -267,18 +300,22 @@ RClose ==
   /\ h' = Append(h, [a |-> "rclose"])
   /\ UNCHANGED <<fmt, nb, hv, hf, base, cur, file, nfiles, rn, started, failed, rpos, extra>>
 
-RReadTopology ==
+\* cont: the file session goes on with a trajectory reader session (which may use this very object)
+RReadTopology(src, cont) ==
   /\ phase = "written" /\ Cap[fmt].top
-  /\ phase' = "closed"
-  /\ h' = Append(h, [a |-> "readtop", exp |-> TopStored(fmt, file[1])])
+  /\ SrcOk(src)
+  /\ cont => (TRUE \in ReuseSet /\ (h = <<>> \/ h[Len(h)].a # "readtop"))
+  /\ phase' = IF cont THEN "written" ELSE "closed"
+  /\ h' = Append(h, [a |-> "readtop", exp |-> TopStored(fmt, file[1]), reuse |-> (src # "new"), src |-> src])
   /\ UNCHANGED <<fmt, nb, hv, hf, base, cur, file, nfiles, rn, started, failed, rpos, extra>>
 
 Next ==
   \/ \E app \in BOOLEAN, reuse \in BOOLEAN : WOpen(app, reuse)
   \/ \E fr \in Frames : WWrite(fr)
   \/ WClose
-  \/ \E d \in {-1, 0, 1}, reuse \in BOOLEAN : ROpen(d, reuse)
-  \/ RFirst \/ RNext \/ RClose \/ RReadTopology
+  \/ \E d \in {-1, 0, 1}, src \in {"new", "reader", "top"} : ROpen(d, src)
+  \/ RFirst \/ RNext \/ RClose
+  \/ \E src \in {"new", "reader", "top"}, cont \in BOOLEAN : RReadTopology(src, cont)
   \/ \E d \in {-1, 1} : RNextMismatch(d)
 Spec == Init /\ [][Next]_vars
 
